@@ -971,6 +971,31 @@ def rule_r11(prog, res) -> None:
         raise AnalysisError(f"C11.R11: only {n} reads of HDF5 members followed, minimum 6")
 
 
+def rule_r12(prog, res) -> None:
+    """writers write: every concrete `to_file` / `to_files` opens its destination for writing (itself, through super()
+    or through a helper it calls) and hands the object's own serialiser (`to_hdf` / `to_dict` / the text writers) the
+    handle — an override that only logs and synchronises leaves no file behind, and the next `from_file` reads an older
+    product or fails far from the cause"""
+    from ..effects import summaries
+
+    S = summaries(prog)
+    n = 0
+    for ci in prog.classes:
+        for name in ("to_file", "to_files"):
+            m = ci.methods.get(name)
+            if m is None or m.is_abstract:
+                continue
+            n += 1
+            res.touch(m)
+            opens = [e for e, _f in S.may(m) if e.kind == "fs" and e.op == "open" and e.mode and e.mode[0] in "wax"]
+            if opens:
+                res.ok("C11.R12", res.site(m), "opens its destination for writing")
+            else:
+                res.violation("C11.R12", m, m.node, f"{ci.name}.{name} never opens a file for writing (not itself, not through super() or a helper): nothing is stored, the call returns normally", key_extra=f"writer-writes-nothing-{ci.name}-{name}")
+    if n < 4:
+        raise AnalysisError(f"C11.R12: only {n} file writers found, minimum 4")
+
+
 RULES = [
     ("C11.R1", rule_r1, QUICK),
     ("C11.R2", rule_r2, QUICK),
@@ -983,4 +1008,5 @@ RULES = [
     ("C11.R9", rule_r9, QUICK),
     ("C11.R10", rule_r10, QUICK),
     ("C11.R11", rule_r11, QUICK),
+    ("C11.R12", rule_r12, QUICK),
 ]
